@@ -1,3 +1,5 @@
+//go:build c14
+
 package main
 
 // C14 — string interpolation.  Implementation side: evaluate a quoted (or raw) string
